@@ -253,7 +253,7 @@ func c10CheckIntStringMap(ru *fw.Rule, p *fw.Program, rel, name string, want map
 // C10.bits: mathx.Bits / BitRange / PadFormat*
 
 func c10BitsRules(r *fw.Run, p *fw.Program) {
-	ru := r.Rule("C10.bits", "mathx: Bits.StringByteBits prints prefix[base] + (b>>3) [+ '.' + (b&7) iff b&7 != 0], both parts in the caller's base (mask == 2^shift-1); BitRange prints Start and Start+Len as '%s-%s'; ranges.Range.Stop is Start+Len; PadFormatInt/Uint/BigInt format the value itself with strconv/Text in the given base and pass (base,prefix,width) through; padFormatNumber returns prefix + zero pad of width-len(s)-len(prefix) + s", 8)
+	ru := r.Rule("C10.bits", "mathx: Bits.StringByteBits prints prefix[base] + (b>>3) [+ '.' + (b&7) iff b&7 != 0], both parts in the caller's base (mask == 2^shift-1); BitRange prints Start and Start+Len as '%s-%s'; ranges.Range.Stop is Start+Len; PadFormatInt/Uint/BigInt format the value itself with strconv/Text in the given base and pass (base,prefix,width) through; padFormatNumber returns prefix + zero pad of width-len(s)-len(prefix) + s; DigitsInBase is len(prefix) (iff basePrefix) + 1 + floor(log_base n), 1 digit for 0", 9)
 	// Bits.StringByteBits
 	sb := p.Fn("(internal/mathx.Bits).StringByteBits")
 	if sb == nil || sb.Blocks == nil || len(sb.Params) != 2 {
@@ -457,6 +457,7 @@ func c10BitsRules(r *fw.Run, p *fw.Program) {
 		}
 		ru.Check(good, "padnumber", p.Rel(pn.Pos()), "prefix[base] (iff basePrefix) + '0'*(width-len(s)-len(prefix)) + s", "padFormatNumber is not prefix + zero padding + digits ("+why+")")
 	}
+	c10DigitsFn(ru, p)
 }
 
 // ---------------------------------------------------------------------------
@@ -669,7 +670,7 @@ func c10OptsRules(r *fw.Run, p *fw.Program) {
 // C10.json
 
 func c10JSONRules(r *fw.Run, p *fw.Program) {
-	ru := r.Rule("C10.json", "colorjson: the encoder has an arm for every gojq value type; int -> strconv.AppendInt(.., int64(v), 10), *big.Int -> v.Append(.., 10) (exact base 10), float64 -> encodeFloat64, string -> encodeString; encodeFloat64 prints NaN as null, substitutes +-MaxFloat64 for f only under a guard implying f is beyond that constant on the same side of zero, formats with AppendFloat(.., 'f'|'e', -1, 64) (shortest exact) and may delete a character of the result only where it is proved to be the leading '0' of a two-digit negative exponent; _printColorJSON marshals its input through colorjson with a ValueFn; previewValue prints integers through PadFormat*(value, FormatBase, prefix) and floats with FormatFloat(.., 'g', -1, 64); indentation is a run of blanks or tabs, written as prefixes of that run or copied from the tail of the buffer's current contents", 23)
+	ru := r.Rule("C10.json", "colorjson: the encoder has an arm for every gojq value type; int -> strconv.AppendInt(.., int64(v), 10), *big.Int -> v.Append(.., 10) (exact base 10), float64 -> encodeFloat64, string -> encodeString; encodeFloat64 prints NaN as null, substitutes +-MaxFloat64 for f only under a guard implying f is beyond that constant on the same side of zero, formats with AppendFloat(.., 'f'|'e', -1, 64) (shortest exact) and may delete a character of the result only where it is proved to be the leading '0' of a two-digit negative exponent; _printColorJSON marshals its input through colorjson with a ValueFn; previewValue prints integers through PadFormat*(value, FormatBase, prefix) and floats with FormatFloat(.., 'g', -1, 64); indentation is a run of blanks or tabs, written as prefixes of that run or copied from the tail of the buffer's current contents; encodeString leaves a byte unescaped only if 0x20 <= b < 0x80 and not quote/backslash, its escape arms write the JSON escape of their byte and no byte is dropped; arrays/objects are bracketed, elements separated by ',' exactly from the second on, keys followed by ':'", 28)
 	enc := p.Fn("(*internal/colorjson.Encoder).encode")
 	if enc == nil || enc.Blocks == nil || len(enc.Params) != 2 {
 		ru.Undecided("anchor:encode", "", "colorjson.(*Encoder).encode(v) not found")
@@ -683,7 +684,7 @@ func c10JSONRules(r *fw.Run, p *fw.Program) {
 		}
 	})
 	asserted := func(val ssa.Value, ty string) bool {
-		ex, ok := c10Strip(val).(*ssa.Extract)
+		ex, ok := c10StripWidening(val).(*ssa.Extract)
 		return ok && ex.Index == 0 && asserts[ty] != nil && ex.Tuple == ssa.Value(asserts[ty])
 	}
 	for _, ty := range []string{"bool", "int", "float64", "*math/big.Int", "string", "[]any", "map[string]any"} {
@@ -732,6 +733,8 @@ func c10JSONRules(r *fw.Run, p *fw.Program) {
 	} else {
 		ru.Undecided("float:anchor", "", "encodeFloat64 not found")
 	}
+	c10JSONStringRules(ru, p)
+	c10JSONSeparators(ru, p)
 	// _printColorJSON
 	pj := p.Fn("(*pkg/interp.Interp)._printColorJSON")
 	if pj == nil || pj.Blocks == nil {
